@@ -204,7 +204,7 @@ def r4_float_int_casts(ctx, F):
     ctx.floor("C10.R4", "float<->int casts in the number code", n, 9, inventory=True)
 
 
-def r5_small_remainder_guarded(ctx, F):
+def r5_small_remainder_guarded(ctx, F, rule="C10.R5"):
     """`%` on the 32-bit inline representation panics for (MIN, -1) ("attempt to calculate the remainder with
     overflow") in every build profile. Each use of `InlineInt % InlineInt` is therefore reached only after a test that
     rules that pair out: either an explicit comparison with MIN / -1, or a sign test (the pair has equal signs, so a
@@ -240,13 +240,13 @@ def r5_small_remainder_guarded(ctx, F):
             n += 1
             # the guarding test has been evaluated on every path to the operation (for `!(a == MIN && b == -1)` no
             # single edge dominates, the test block does)
-            ctx.check(any(f.dominates(e[0], c.bb) and e[0] != c.bb for e in guards), "C10.R5",
+            ctx.check(any(f.dominates(e[0], c.bb) and e[0] != c.bb for e in guards), rule,
                       "small-%s-guarded:%s" % (c.name.split("::")[-1], short_fn(f.qpath)),
                       "the operation is reached only after a sign test or an explicit MIN / -1 test",
                       "`%s` evaluates `InlineInt %s InlineInt` without first ruling out (MIN, -1): that pair panics "
                       "(remainder/division overflow) instead of promoting to a big integer"
                       % (short_fn(f.qpath), "%" if c.name.endswith("rem") else "/"), fn=f, line=c.line)
-    ctx.floor("C10.R5", "uses of the panicking small-int % and /", n, 2)
+    ctx.floor(rule, "uses of the panicking small-int % and /", n, 2)
 
 
 def run(ctx):
